@@ -324,11 +324,11 @@ theorem post_extendFunctionEnv {st : St} (hI : Inv st) {f : FuncVal} (hf : f.env
   obtain ⟨cf, hcf⟩ := frame_exists hI.cur
   refine Post.bind_read (runM_getFrame hcf) ?_
   dsimp only
-  have hp : (if (cf.cacheKey == f.key) = true then st.cur else f.env) < st.frames.size := by
+  have hp : (if (sameFunction cf f) = true then st.cur else f.env) < st.frames.size := by
     split
     · exact hI.cur
     · exact hf
-  generalize (if (cf.cacheKey == f.key) = true then st.cur else f.env) = parent at hp
+  generalize (if (sameFunction cf f) = true then st.cur else f.env) = parent at hp
   obtain ⟨pf, hpf⟩ := frame_exists hp
   refine Post.bind_read (runM_getFrame hpf) ?_
   refine Post.bind (post_newFrame hI (nf := { outer := some parent, depth := pf.depth + 1, cacheKey := f.key, function := some f })
